@@ -607,6 +607,10 @@ func (c *Cluster) Shutdown() {
 	// messages parked after the first sweep (senders that were mid-flight)
 	done := make(chan struct{})
 	go func() { c.wg.Wait(); close(done) }()
+	poll := 50 * time.Millisecond
+	if c.ET()/4 > poll {
+		poll = c.ET() / 4
+	}
 	for {
 		select {
 		case <-done:
@@ -617,7 +621,7 @@ func (c *Cluster) Shutdown() {
 				time.Sleep(time.Millisecond)
 			}
 			return
-		case <-time.After(50 * time.Millisecond):
+		case <-time.After(poll):
 			c.net.ReleaseAll(false, nil)
 		}
 	}
